@@ -1144,6 +1144,19 @@ class _Loc:
             pos = [i for i, lab in enumerate(ia.items)
                    if builtins.bool(and_(True if lo is None else lab >= lo, True if hi is None else lab <= hi))]
             return "pos", pos
+        if isinstance(rk, (SArr, _np.ndarray, list)) and (not hasattr(rk, "dtype") or rk.dtype.kind in "iu"):
+            # list of integer labels: each is looked up in the (integer) index; a missing label is a KeyError as in pandas
+            ia = _index_arr(obj._index, n)
+            labs = ia.items if isinstance(ia, SArr) else list(ia)
+            pos = []
+            for lab in (rk.items if isinstance(rk, SArr) else list(rk)):
+                hits = [i for i, x in enumerate(labs) if builtins.bool(x == lab)]
+                if not hits:
+                    raise KeyError(f"{lab} not in index")
+                if len(hits) > 1:
+                    raise Inconclusive("loc with a label list on an index with repeated labels")
+                pos.append(hits[0])
+            return "pos", pos
         raise Inconclusive(f"loc with {type(rk)}")
 
     def __getitem__(self, k):
